@@ -150,17 +150,18 @@ type zzMP struct {
 	T           int
 	mIdx        int
 	parserCalls int
+	t           int // current event index (nondet naming)
 }
 
 func (h *zzMP) parse(raw []byte, f *cptvframe.Frame, edge int) error {
 	h.parserCalls++
 	if h.bad {
-		f.Status.FrameCount = -7 - zzInt("scribble", 0)
-		f.Pix[0][0] = zzU16("scribblepix", 0)
+		f.Status.FrameCount = -7 - zzInt("scribble", h.t)
+		f.Pix[0][0] = zzU16("scribblepix", h.t)
 		return &zzError{"bad frame"}
 	}
 	f.Status.FrameCount = h.seq
-	f.Pix[0][0] = zzU16("framepix", 0)
+	f.Pix[0][0] = zzU16("framepix", h.t)
 	return nil
 }
 
@@ -254,21 +255,40 @@ func zzNext(N int, a zzAbs) zzAbs {
 	return b
 }
 
-// ZZ_MP_step: one event from an arbitrary Inv_MP state; C01-C04 assertion groups.
+// ZZ_MP_step: STEPS (1 or 2) events from an arbitrary Inv_MP state; C01-C04
+// assertion groups after each event. With STEPS=2 the second event starts from
+// the real successor of an invariant state, so a defect that corrupts state
+// in one event and manifests in the next is caught at property level
+// (2-induction) even when the representation invariant is no longer preserved.
 func ZZ_MP_step() {
 	N := zzParam("N")
 	h := zzMkMP(N)
+	zzReach("pre-state")
+	steps := zzParam("STEPS")
+	for t := 0; t < steps; t++ {
+		zzMPEvent(h, t)
+	}
+}
+
+// zzMPEvent executes one event on h.mp, checks it against the ghost in h and
+// advances the ghost to the successor state.
+func zzMPEvent(h *zzMP, t int) {
+	N := h.N
+	h.t = t
 	mp, sink, a := h.mp, h.sink, h.a
 	n := a.q*N + a.c
 	mark := a.qm*N + a.cm
 	ret := zzRetained(a.q, a.c, a.qm, a.cm)
-	zzReach("pre-state")
-	ev := zzInt("ev", 0)
+	sink.starts, sink.startOKs, sink.stops, sink.writes, sink.checks = 0, 0, 0, 0, 0
+	h.lis.motion, h.lis.started, h.lis.ended = 0, 0, 0
+	zzDetectCalls = 0
+	lastPre := sink.last
+	ev := zzInt("ev", t)
 	zzAssume(0 <= ev && ev < 3)
-	m := zzBool("m", 0)
-	w := zzBool("w", 0)
-	d := zzBool("d", 0)
-	s := zzBool("s", 0)
+	m := zzBool("m", t)
+	w := zzBool("w", t)
+	d := zzBool("d", t)
+	s := zzBool("s", t)
 	zzMotionBit, zzGateOpen = m, w
 	sink.failCheck, sink.failStart = !d, !s
 	raw := make([]byte, 2)
@@ -312,11 +332,11 @@ func ZZ_MP_step() {
 			if first < 0 {
 				first = 0
 			}
-			zzAssert(sink.firstSeq > h.sinkLastPre(n, mark), "C01: no frame is written into two recordings")
+			zzAssert(sink.firstSeq > lastPre, "C01: no frame is written into two recordings")
 			if ret {
 				first = mark
 				zzReach("re-trigger within pre-trigger reach")
-				zzAssert(sink.firstSeq == h.sinkLastPre(n, mark)+1, "C01: back-to-back recordings tile the stream")
+				zzAssert(sink.firstSeq == lastPre+1, "C01: back-to-back recordings tile the stream")
 			}
 			zzAssert(sink.firstSeq == first, "C02: recording starts a full pre-trigger buffer before the trigger (or at the earliest available frame)")
 			zzAssert(sink.writes == n-sink.firstSeq+1, "C01/C02: pre-trigger frames and the trigger frame are all written")
@@ -381,6 +401,13 @@ func ZZ_MP_step() {
 		lis := h.lis
 		zzAssert(lis.started == sink.startOKs && lis.ended == sink.stops, "listener notified of start and end")
 		zzAssert((lis.motion == 1) == m, "listener notified of motion")
+		// successor ghost
+		h.a, h.isRec, h.trig = b, isRec2, trig2
+		if isRec2 {
+			h.fw, h.wu, h.mIdx = fw2, target, mIdx2
+		} else {
+			h.fw, h.wu = 0, 0
+		}
 	} else {
 		// ---- a bad frame (ev 1) or a camera reset (ev 2)
 		if ev == 1 {
@@ -415,14 +442,8 @@ func ZZ_MP_step() {
 			zzAssert(sink.last == mark-1, "Inv: everything written precedes the mark")
 		}
 		zzAssert(mp.triggered == trig2, "Inv: motion run counter")
+		h.a, h.isRec, h.trig, h.fw, h.wu = b, false, trig2, 0, 0
 	}
-}
-
-func (h *zzMP) sinkLastPre(n, mark int) int {
-	if h.isRec {
-		return n - 1
-	}
-	return mark - 1
 }
 
 // ZZ_MP_bmc: K arbitrary events from the real constructor; the monitor below
